@@ -212,33 +212,42 @@ func isNL(ts []*smt.Term) bool {
 	return false
 }
 
-// check decides satisfiability of the conjunction. fast selects the
-// short-timeout solvers used for feasibility questions (unknown = keep).
+// check decides satisfiability of the conjunction. Back ends are tried in
+// turn: first both with the short feasibility timeout (most queries are
+// answered by one of them in well under a second, and which one is fast is
+// hard to predict), then - unless fast is set - both with the long timeout.
 func (e *Explorer) check(ts []*smt.Term, vals []*smt.Term, fast bool) (smt.Result, []uint64) {
 	nl := isNL(ts)
+	var k string
 	if len(vals) == 0 {
 		var sb strings.Builder
 		for _, t := range ts {
 			fmt.Fprintf(&sb, "%d,", t.ID)
 		}
-		k := sb.String()
+		k = sb.String()
 		if r, ok := e.cache[k]; ok && (r != smt.Unknown || fast) {
 			return r, nil
 		}
-		r, _ := e.getSolver(nl, fast).Check(ts, nil)
-		if r == smt.Unknown {
-			// second opinion from the other back end
-			r, _ = e.getSolver(!nl, fast).Check(ts, nil)
-		}
-		e.cache[k] = r
-		return r, nil
 	}
-	r, v := e.getSolver(nl, fast).Check(ts, vals)
-	if r == smt.Unknown {
-		r, v = e.getSolver(!nl, fast).Check(ts, vals)
+	type cfg struct{ nl, fast bool }
+	order := []cfg{{nl, true}, {!nl, true}}
+	if !fast {
+		order = append(order, cfg{nl, false}, cfg{!nl, false})
+	}
+	r := smt.Unknown
+	var v []uint64
+	for _, c := range order {
+		r, v = e.getSolver(c.nl, c.fast).Check(ts, vals)
+		if r != smt.Unknown {
+			break
+		}
+	}
+	if len(vals) == 0 {
+		e.cache[k] = r
 	}
 	return r, v
 }
+
 
 // ---- path aborts ----
 
@@ -751,6 +760,15 @@ func (m *Machine) evalRegion(r *Region) *smt.Term {
 	for i, p := range fn.Params {
 		v, ok := m.tags[p.Name()]
 		if !ok {
+			// labels such as "pre.reserved" are matched by pre_reserved
+			for k, tv := range m.tags {
+				if identOf(k) == p.Name() {
+					v, ok = tv, true
+					break
+				}
+			}
+		}
+		if !ok {
 			return nil // input not created on this path: region does not apply
 		}
 		args[i] = v
@@ -930,4 +948,14 @@ func sortedKeys(m map[string]int) []string {
 	}
 	sort.Strings(ks)
 	return ks
+}
+
+func identOf(label string) string {
+	b := []byte(label)
+	for i, c := range b {
+		if !(c >= 'a' && c <= 'z' || c >= 'A' && c <= 'Z' || c >= '0' && c <= '9' || c == '_') {
+			b[i] = '_'
+		}
+	}
+	return string(b)
 }
